@@ -1557,6 +1557,10 @@ class Engine:
             return z3.Or([self.veq(item, e) for e in cont.t]) if cont.t else z3.BoolVal(False)
         if cont.k == "bytes" and item.k in ("int", "bool"):
             return z3.Contains(cont.t, z3.Unit(self.as_int(item)))
+        if cont.k == "obj":
+            cc = self.reg.method_contract(cont.cls, "__contains__")
+            if cc is not None:
+                return self.truth(self.contract_call(cc, cont, [item], ast.Call(func=ast.Name(id="contains"), args=[], keywords=[])))
         if cont.k == "py" and isinstance(cont.t, (set, frozenset, tuple, list)):
             return z3.Or([self.veq(item, self.pyval(e)) for e in cont.t]) if cont.t else z3.BoolVal(False)
         raise OutOfReach(f"{self.c.key}: `in` on {cont.k}")
@@ -1632,6 +1636,8 @@ class Engine:
                 return self.pyval(base.t[i.as_long()])
             if idx.k == "str" and z3.is_string_value(z3.simplify(idx.t)):
                 return self.pyval(base.t[z3.simplify(idx.t).as_string()])
+        if base.k == "obj" and self.reg.method_contract(base.cls, "__getitem__") is not None:
+            return self.contract_call(self.reg.method_contract(base.cls, "__getitem__"), base, [idx], n)
         if base.k in ("obj", "opaque"):
             # block / variable lookup on message-like data: an opaque pure read (assumption recorded)
             self.used_assumptions.append("subscript lookups on message/block data are pure reads that do not raise")
@@ -2301,6 +2307,8 @@ class Engine:
             if not cc.raise_preserves_state:
                 self._havoc_frame(cc, recv, env)
             for cl in cc.ensures_on_raise:
+                if "ncalls(" in cl or "called_with(" in cl or "count(" in cl:
+                    continue
                 self.assume(self.clause_bool(cl, self.st, pre_state, env))
             raise PyRaise(exc)
         for exc, cond in cc.raises.items():
@@ -2315,6 +2323,8 @@ class Engine:
         env2 = dict(env)
         env2["result"] = res
         for e in cc.all_ensures(self.reg):
+            if "ncalls(" in e or "called_with(" in e or "count(" in e:
+                continue        # clauses about the callee's own ghost call log say nothing in the caller's frame
             self.assume(self.clause_bool(e, self.st, pre_state, env2))
         for g, inc in cc.ghost_effects.items():
             cur = self.st.ghost.get(g, z3.IntVal(0))
